@@ -505,7 +505,7 @@ Qed.
 Lemma tracks_rcmd now s sp c : tracks s sp -> tracks (fst (exec_rcmd s now c)) sp.
 Proof.
   intros [Hc Hq]. destruct c as [inst n|inst timeout]; simpl.
-  - unfold exec_resolve. destruct (query_unresolved (s_cache s) inst) as [sent o].
+  - unfold exec_resolve. destruct (if has_ptr_to (s_cache s) inst then query_unresolved (s_cache s) inst else (false, [])) as [sent o].
     destruct (sent && retry_guard n max_try); split; assumption.
   - unfold exec_verify.
     destruct (ceqr_verify (s_cache s) (s_cache s) inst None (ceqr_refl _)) as [_ _].
